@@ -221,7 +221,7 @@ PROPS = {
                   'Pbc.Props.C07.unpack_then_free_clean'],
         refine=[],
         cases=[('alloc', 400, 6000, [])],
-        oracle='c07',
+        oracle='c07', gen=(8, 60),
     ),
     'C08': dict(
         title='a refused allocation at any point fails cleanly',
